@@ -20,9 +20,9 @@ def drv_cfg(c, tick_ns=1000, backend="epoll", **kw):
 
 
 def generate(chk, name, c, *, simulate=None, depth=None, seed=None, invariants=("Inv", "Emit"),
-             properties=(), timeout=1200, max_hist=None):
+             properties=(), timeout=1200, max_hist=None, constraint="GenConstraint"):
     """Run TLC on EventCore with constants c; returns list of histories."""
-    cfg = vkit.write_cfg(name, c, invariants=invariants, properties=properties, constraint="GenConstraint")
+    cfg = vkit.write_cfg(name, c, invariants=invariants, properties=properties, constraint=constraint)
     hists = []
     seen = set()
     def sink(v):
@@ -67,3 +67,67 @@ def replay(chk, exe, hists, c, *, ticks=(1000,), backends=("epoll",), label="", 
 
 def strip_obs(h):
     return [{k: v for k, v in s.items() if k != "o"} for s in h]
+
+
+INV_LIST = ["TypeOK", "QueueFlagOK", "CountOK", "MaxOK", "CommonQueueOK", "OnlyAllocQueued", "NotLate", "NoEarly",
+            "PrioOrderInv"]
+PROPS = ["BreakStops", "LaterPromoted"]
+
+
+def model_check(chk, name, c, *, timeout=1500):
+    """Decide the invariants/action properties on the bounded state graph (VIEW hides hist)."""
+    cfg = vkit.write_cfg(name, c, invariants=INV_LIST, properties=PROPS, constraint="GenConstraint", view="StateView")
+    res = vkit.tlc("EventCore", cfg, want_prints=False, timeout=timeout, coverage=True)
+    chk.add_tlc(name, res)
+    return res
+
+
+def op_histogram(hists):
+    d = {}
+    for h in hists:
+        for s in h:
+            k = s["a"]
+            if k == "script":
+                k = "script:" + s["s"]["a"]
+            d[k] = d.get(k, 0) + 1
+            if k == "loop":
+                for cb in s["o"].get("cb", []):
+                    kk = "cb:" + cb["k"]
+                    d[kk] = d.get(kk, 0) + 1
+    return d
+
+
+def standard_run(pid, tier, seed, plan, level_text=None):
+    """plan: dict(mc=[(name, consts)], gen=[dict(name, consts, simulate, depth, nt, ticks, backends, extra)],
+                   need_ops=[...], rule=str, assumptions=[...])"""
+    chk = vkit.Check(pid, tier, seed)
+    exe = vkit.cc("eventcore_drv", ["eventcore_drv.c"], vclock=True)
+    for name, c in plan.get("mc", []):
+        res = model_check(chk, name, c)
+        need = plan.get("need_actions", ["Api", "ApiLoop", "IterTop", "Wait", "TimeoutProcess", "RunCallback", "LoopReturn"])
+        chk.check_coverage(res, need, name)
+    hist_total = {}
+    for g in plan["gen"]:
+        hs = generate(chk, g["name"], g["consts"], simulate=g.get("simulate"), depth=g.get("depth", 400),
+                      seed=seed if g.get("simulate") else None,
+                      invariants=INV_LIST + ["Emit"], properties=(),
+                      timeout=g.get("timeout", 1200), max_hist=g.get("max_hist"),
+                      constraint=g.get("constraint", "GenConstraint"))
+        if not hs:
+            raise vkit.InfraError("generator %s produced no histories" % g["name"])
+        for h in hs:
+            chk.count_case(strip_obs(h), nontrivial(h))
+        for h in hs[:2]:
+            chk.sample({"gen": g["name"], "history": strip_obs(h), "predicted_last_obs": h[-1]["o"]})
+        oh = op_histogram(hs)
+        for k, v in oh.items():
+            hist_total[k] = hist_total.get(k, 0) + v
+        replay(chk, exe, hs, g["consts"], ticks=g.get("ticks", (1000,)), backends=g.get("backends", ("epoll",)),
+               label=g["name"], extra_cfg=g.get("extra"))
+    chk.cov["op_histogram"] = hist_total
+    missing = [o for o in plan.get("need_ops", []) if hist_total.get(o, 0) == 0]
+    if missing:
+        raise vkit.InfraError("vacuous scenario corpus: ops never generated: %s" % missing)
+    chk.cov["rule"] = plan.get("rule", "")
+    chk.assumptions += plan.get("assumptions", [])
+    return chk.finish()
